@@ -248,6 +248,19 @@ func (c *streamCtx) histShapes(prop string) []func(v int) *histSpec {
 			step(700, c.off(), "failing scan again").withOracle("g1", f),
 			step(10, c.off(), "fault-free scan"))
 	}
+	// two scale-downs of one controller several REAL seconds apart: each taint carries the second it was written in
+	shapes["seconds-apart"] = func(v int) *histSpec {
+		init := c.histWorld(5, 8, func(b *gbuild) { b.o.MinNodes = 1; b.o.FastNodeRemovalRate = 1 })
+		later := step(5, c.off(), "four real seconds later: the next oldest node")
+		later.SleepMs = 4200
+		steps := []histStep{step(0, c.off(), "the oldest node is tainted"), later}
+		if v%2 == 1 { // taint, hand-untaint, re-taint: a fresh stamp again
+			again := step(5, c.off(), "the first node, untainted by hand meanwhile, is the oldest again", hEdit{Op: "untaint", Node: "g1-n4", Key: escKey})
+			again.SleepMs = 4200
+			steps = append(steps, again)
+		}
+		return hist(init, "seconds-apart", steps...)
+	}
 	// both the read and the write of the oldest candidate fail in one scale-down scan; nothing tells the informer anything new
 	// about that node; the next, fault-free scan must come back to it
 	shapes["double-fault"] = func(v int) *histSpec {
@@ -423,7 +436,7 @@ func (c *streamCtx) histShapes(prop string) []func(v int) *histSpec {
 		"C10":  {"cordon-annotate", "taint-wait-reap", "pods-move"},
 		"C11":  {"dry", "from-zero"},
 		"C12":  {"two-groups", "transient-failure"},
-		"C15":  {"repeated-scale-down", "external-taints", "double-fault", "restart", "cooldown", "cordon-swap"},
+		"C15":  {"repeated-scale-down", "seconds-apart", "external-taints", "double-fault", "restart", "cooldown", "cordon-swap"},
 		"C19":  {"lister-lag", "transient-failure", "taint-wait-reap", "two-groups"},
 		"C05S": {"node-size-change", "from-zero", "node-size-change", "restart", "cooldown"},
 		"C20":  {"transient-failure", "lister-lag", "external-taints", "constructed-earlier", "from-zero"},
